@@ -81,7 +81,7 @@ def self_delimiting(c):
 
 # codec ids that Codec.C18Run.run knows; everything else is checked by the implementation-side
 # monitors only and is not sent to Coq
-MODELLED_IDS = set(range(1, 18)) | {20, 21, 22, 23} | set(range(119, 149)) | {101, 102, 103, 104, 105, 106, 107, 108, 109}
+MODELLED_IDS = set(range(1, 18)) | {20, 21, 22, 23} | set(range(119, 149)) | {101, 102, 103, 104, 105, 106, 107, 108, 109, 110, 111}
 
 
 def site_of(c):
